@@ -516,31 +516,39 @@ def escape_selects_table(ctx, rule):
     from ..e2e import Outcome, batch_api
     bad = None
     n = 0
-    for kind in ('html', 'xml'):
+    for kind in ('html', 'xml', 'xhtml'):
         spec_kids = []
+        if kind != 'html':
+            # attribute names are case-sensitive in XML trees, also on XHTML elements: ID / CLASS / DATA are other attributes,
+            # whether they stand alone or before the lower-case one
+            spec_kids.append(('i', {'ID': 'a', 'CLASS': 'a', 'DATA': 'a', '_label': 'shout'}, []))
+            spec_kids.append(('i', {'ID': 'zz', 'id': 'a', 'CLASS': 'zz', 'class': 'a k', 'DATA': 'zz', 'data': 'a', '_label': 'both'}, []))
+            spec_kids.append(('i', {'id': 'zz', 'ID': 'a', 'class': 'zz', 'CLASS': 'a', 'data': 'zz', 'DATA': 'a', '_label': 'both2'}, []))
         for i, s in enumerate(HOSTILE):
             v = s.replace('\x00', '�')
             words = [w for w in v.replace('\t', ' ').replace('\n', ' ').replace('\r', ' ').replace('\f', ' ').split(' ') if w]
-            cls = (words + ['k']) if kind == 'html' else (v + ' k')
+            cls = (words + ['k']) if kind != 'xml' else (v + ' k')
             spec_kids.append(('i', {'id': v, 'class': cls, 'data': v, '_label': f'e{i}'}, []))
         # duplicates: the same id twice, and a look-alike
-        spec_kids.append(('i', {'id': 'a', 'class': ['a'] if kind == 'html' else 'a', 'data': 'a', '_label': 'dup'}, []))
+        spec_kids.append(('i', {'id': 'a', 'class': ['a'] if kind != 'xml' else 'a', 'data': 'a', '_label': 'dup'}, []))
         # a class attribute assigned as ONE string through the bs4 API (also in an HTML tree), and look-alikes: a class that merely
         # contains the needle, and the pieces of a needle with a space as consecutive classes
         spec_kids.append(('i', {'id': 'str', 'class': 'a  z\tq', 'data': 'str', '_label': 'strcls'}, []))
-        spec_kids.append(('i', {'id': 'decoy', 'class': 'xax ba ab' if kind != 'html' else ['xax', 'ba', 'ab'], 'data': 'decoy', '_label': 'decoy'}, []))
+        spec_kids.append(('i', {'id': 'decoy', 'class': 'xax ba ab' if kind == 'xml' else ['xax', 'ba', 'ab'], 'data': 'decoy', '_label': 'decoy'}, []))
         spec_kids.append(('i', {'id': 'decoy2', 'class': 'xax ba' , 'data': 'decoy2', '_label': 'decoy2'}, []))
-        spec_kids.append(('i', {'id': 'pieces', 'class': ['a', 'b'] if kind == 'html' else 'a b', 'data': 'pieces', '_label': 'pieces'}, []))
+        spec_kids.append(('i', {'id': 'pieces', 'class': ['a', 'b'] if kind != 'xml' else 'a b', 'data': 'pieces', '_label': 'pieces'}, []))
         # near misses of plain values: the value with one white-space character before or after it (an end anchor that lets a final
         # line feed pass, a comparison after stripping)
         for j, near in enumerate(['a\n', '\na', 'a ', ' a', 'a\r', 'a\x0c', 'a\n\n', 'a-', '-\n', '0\n', 'é\n']):
-            spec_kids.append(('i', {'id': near, 'class': ['zz'] if kind == 'html' else 'zz', 'data': near, '_label': f'near{j}'}, []))
+            spec_kids.append(('i', {'id': near, 'class': ['zz'] if kind != 'xml' else 'zz', 'data': near, '_label': f'near{j}'}, []))
         doc, order, L = make_doc([('r', {'_label': 'root'}, spec_kids)], kind)
         idx = {id(n_): i for i, n_ in enumerate(order)}
         els = [e for e in elements(order) if e.get('name') == 'i']
 
         def classes(e):
             c = e.get('attrs').get('class')
+            if c is None:
+                return []
             if isinstance(c, str):
                 out, cur = [], ''
                 for ch in c:
@@ -620,6 +628,10 @@ def case_rules_table(ctx, rule):
             (':link', [A] if html_doc else []), (':any-link', [A] if html_doc else []),
             (':enabled', [B, B2] if html_tree else ([B, B2] if kind == 'xhtml' else [])),
             (':root:dir(ltr)', ['<root>'] if html_doc else []),
+            # the type of an element is its name as the document type compares names: <DIV> and <div> are one type in HTML trees only
+            ('body > div:first-of-type', [U] if html_tree else [Lo]), ('body > DIV:first-of-type', [U]), ('body > :nth-of-type(2)', [Lo, B2] if html_tree else [B2]),
+            ('body > :only-of-type', [A] if html_tree else [U, Lo, A]), ('body > :last-of-type', [Lo, B2, A] if html_tree else [U, Lo, B2, A]),
+            ('body > :nth-last-of-type(2)', [U, B] if html_tree else [B]),
         ]
         for s, want in rows:
             st, got = api(ctx, 'select', s, doc)
@@ -686,6 +698,27 @@ def case_rules_table(ctx, rule):
         rule.instance({'document': 'html5 with non-ASCII names', 'selector': s_, 'selected': g, 'expected': want}, key=f'case|nonascii|{s_}')
         if g != want and bad is None:
             bad = ('HTML tree whose element / attribute names contain cased non-ASCII letters (only ASCII letters are folded)', s_, g, want)
+    # filter() over a plain iterable: every item is judged by its own document type, whatever stood before it in the iterable
+    items = {}
+    for kind in ('html', 'xml'):
+        d_, o_, l_ = make_doc([('DIV', {'Type': 'TeXt', 'ID': 'Up', '_label': f'{kind}-item'}, [])], kind)
+        for k_ in ('parent', 'previous_element', 'previous_sibling', 'next_sibling'):
+            l_[f'{kind}-item'].set(k_, None)
+        items[kind] = l_[f'{kind}-item']
+    for s_ in ('div', 'DIV', '[type=text]', '[id]', '[ID]', ':root', 'div:first-child', '[type="TeXt"]'):
+        alone = {}
+        for kind, it in items.items():
+            st, v = api(ctx, 'match', s_, it)
+            n += 1
+            alone[kind] = v if st == 'ok' else f'raises {v}'
+        for seq in (('html', 'xml'), ('xml', 'html'), ('html', 'html', 'xml', 'xml', 'html')):
+            st, got = api(ctx, 'filter', s_, [items[k_] for k_ in seq])
+            n += 1
+            g = [label(x) for x in got] if st == 'ok' else f'raises {got}'
+            want = [label(items[k_]) for k_ in seq if alone[k_] is True]
+            rule.instance({'filter_over': list(seq), 'selector': s_, 'kept': g, 'match_alone': alone}, key=f'case|mixed-filter|{s_}|{seq}')
+            if g != want and bad is None:
+                bad = (f'iterable of detached <DIV Type=TeXt ID=Up> elements from documents of types {list(seq)}, filter()', s_, g, want)
     rule.instance({'api_calls': n}, key='case-rules')
     rule.obligation(bad is None)
     if bad is not None:
@@ -992,22 +1025,29 @@ def namespace_table(ctx, rule):
         ('e', {'_ns': X, '_label': 'ex', 'a': '1', NSKey('x:b', X, 'b'): '2'}, []),
         ('e', {'_ns': Y, '_label': 'ey', NSKey('y:a', Y, 'a'): '3'}, []),
         ('e', {'_label': 'en', 'a': '4'}, []),
-        ('f', {'_ns': X, '_label': 'fx'}, [('e', {'_ns': X, '_label': 'ex2', NSKey('q:a', Y, 'a'): '5'}, [])])])]
+        ('f', {'_ns': X, '_label': 'fx'}, [('e', {'_ns': X, '_label': 'ex2', NSKey('q:a', Y, 'a'): '5'}, [])]),
+        # an attribute in namespace urn:x stored under a key without prefix (the document binds that URI as default namespace as well),
+        # and attributes / an element in the XML namespace
+        ('g', {'_label': 'gc', NSKey('c', X, 'c'): '7', NSKey('xml:lang', 'http://www.w3.org/XML/1998/namespace', 'lang'): 'de'}, []),
+        ('k', {'_ns': 'http://www.w3.org/XML/1998/namespace', '_label': 'xk'}, [])])]
     m1 = {'p': X, 'q': Y}
     rows1 = [('p|e', ['ex', 'ex2']), ('q|e', ['ey']), ('*|e', ['ex', 'ey', 'en', 'ex2']), ('|e', ['en']), ('e', ['ex', 'ey', 'en', 'ex2']),
-             ('z|e', []), ('p|*', ['ex', 'fx', 'ex2']), ('|*', ['root', 'en']),
+             ('z|e', []), ('p|*', ['ex', 'fx', 'ex2']), ('|*', ['root', 'en', 'gc']),
              ('[p|b]', ['ex']), ('[q|b]', []), ('[p|a]', []), ('[q|a]', ['ey', 'ex2']), ('[a]', ['ex', 'en']), ('[|a]', ['ex', 'en']),
              ('[*|a]', ['ex', 'ey', 'en', 'ex2']), ('[*|b]', ['ex']), ('[z|a]', []), ('[p|b="2"]', ['ex']), ('[q|a="5"]', ['ex2']),
-             ('p|f > p|e', ['ex2']), ('p|e[q|a]', ['ex2']), (':not(p|e)', ['root', 'ey', 'en', 'fx']), (':is(q|e, |e)', ['ey', 'en'])]
+             ('p|f > p|e', ['ex2']), ('p|e[q|a]', ['ex2']), (':not(p|e)', ['root', 'ey', 'en', 'fx', 'gc', 'xk']), (':is(q|e, |e)', ['ey', 'en']),
+             ('[p|c]', ['gc']), ('[*|c]', ['gc']), ('[q|c]', []), ('[p|c="7"]', ['gc']), ('[*|lang]', ['gc']),
+             # a prefix that the caller's map does not bind matches nothing - `xml` is no exception
+             ('[xml|lang]', []), ('xml|k', []), ('xml|*', []), ('*|k', ['xk'])]
     m2 = {'': X, 'q': Y}
     rows2 = [('e', ['ex', 'ex2']), ('*', ['ex', 'fx', 'ex2']), ('*|e', ['ex', 'ey', 'en', 'ex2']), ('|e', ['en']), ('q|e', ['ey']), ('[a]', ['ex']),
-             (':not(e)', ['fx']), ('*|*:not(e)', ['root', 'ey', 'en', 'fx']), ('f e', ['ex2']), (':is(e)', ['ex', 'ex2']),
+             (':not(e)', ['fx']), ('*|*:not(e)', ['root', 'ey', 'en', 'fx', 'gc', 'xk']), ('f e', ['ex2']), (':is(e)', ['ex', 'ex2']),
              # positions count every element sibling, whatever its namespace (the default namespace restricts the subject only)
-             ('*|*:nth-child(2)', ['ey']), ('*|*:nth-child(3)', ['en']), ('*|e:nth-last-child(2)', ['en']), ('e:nth-child(1)', ['ex', 'ex2']),
-             ('*|*:nth-child(n+3)', ['en', 'fx']), ('*:nth-child(4)', ['fx']), ('*:nth-last-child(1)', ['fx', 'ex2']), ('q|e:nth-child(2)', ['ey']),
-             ('*|*:nth-child(even)', ['ey', 'fx']), ('*|*:nth-last-child(-n+2)', ['root', 'en', 'fx', 'ex2']), ('*|*:first-child', ['root', 'ex', 'ex2']),
-             ('*|*:nth-of-type(2)', []), ('*|*:nth-of-type(1)', ['root', 'ex', 'ey', 'en', 'fx', 'ex2']), ('*|*:nth-child(2 of *|e)', ['ey']), ('*|*:nth-child(2 of e)', []), ('*|*:nth-child(1 of e)', ['ex', 'ex2'])]
-    rows3 = [(':--px', ['ex', 'ex2']), ('root > :--px', ['ex']), (':--qa', ['ey', 'ex2']), (':--both', ['ex2']), ('f :--px', ['ex2']), (':not(:--px)', ['root', 'ey', 'en', 'fx'])]
+             ('*|*:nth-child(2)', ['ey']), ('*|*:nth-child(3)', ['en']), ('*|e:nth-last-child(4)', ['en']), ('e:nth-child(1)', ['ex', 'ex2']),
+             ('*|*:nth-child(n+3)', ['en', 'fx', 'gc', 'xk']), ('*:nth-child(4)', ['fx']), ('*:nth-last-child(1)', ['ex2']), ('*:nth-last-child(3)', ['fx']), ('q|e:nth-child(2)', ['ey']),
+             ('*|*:nth-child(even)', ['ey', 'fx', 'xk']), ('*|*:nth-last-child(-n+2)', ['root', 'ex2', 'gc', 'xk']), ('*|*:first-child', ['root', 'ex', 'ex2']),
+             ('*|*:nth-of-type(2)', []), ('*|*:nth-of-type(1)', ['root', 'ex', 'ey', 'en', 'fx', 'ex2', 'gc', 'xk']), ('*|*:nth-child(2 of *|e)', ['ey']), ('*|*:nth-child(2 of e)', []), ('*|*:nth-child(1 of e)', ['ex', 'ex2'])]
+    rows3 = [(':--px', ['ex', 'ex2']), ('root > :--px', ['ex']), (':--qa', ['ey', 'ex2']), (':--both', ['ex2']), ('f :--px', ['ex2']), (':not(:--px)', ['root', 'ey', 'en', 'fx', 'gc', 'xk'])]
     custom = {':--px': 'p|e', ':--qa': '[q|a]', ':--both': ':--px:--qa'}
     XH = 'http://www.w3.org/1999/xhtml'
     T4 = [('html', {'_label': 'root'}, [('body', {'_label': 'body'}, [('e', {'_label': 'hx'}, []), ('e', {'_ns': None, '_label': 'bare'}, [('e', {'_ns': None, '_label': 'bare2'}, [])]),
@@ -1043,9 +1083,16 @@ def lang_pipeline_table(ctx, rule):
               ('b:lang(de)', []), ('div:lang(en)', ['shout']), (':lang("de-*")', ['de', 'p2', 'ifr', 'p4'])]
     TM = [('doc', {NSKey('xml:lang', XMLNS, 'lang'): 'de', 'lang': 'en', '_label': 'root'}, [('a', {'_label': 'a'}, []), ('b', {'lang': 'fr', '_label': 'b'}, [])])]
     rows_m = [('a:lang(de)', ['a']), ('a:lang(en)', []), ('b:lang(fr)', []), ('b:lang(de)', ['b'])]
-    TH = [('html', {'_label': 'root'}, [('head', {}, [('meta', {'http-equiv': 'Content-Language', 'content': 'es'}, [])]),
-                                        ('body', {}, [('p', {'_label': 'p'}, []), ('p', {'lang': 'pt', '_label': 'q'}, [])])])]
-    rows_h = [('p:lang(es)', ['p']), ('p:lang(pt)', ['q']), ('body:lang(es)', ['body']), ('p:lang(en)', [])]
+    # the pragma is the fallback of ITS document: a nested document without any language information has no language, at any depth;
+    # another <meta> may precede the pragma
+    TH = [('html', {'_label': 'root'}, [('head', {}, [('meta', {'charset': 'utf-8'}, []), ('meta', {'http-equiv': 'Content-Language', 'content': 'es'}, [])]),
+                                        ('body', {}, [('p', {'_label': 'p'}, []), ('p', {'lang': 'pt', '_label': 'q'}, []),
+                                                      ('iframe', {'_label': 'fr'}, [('html', {'_label': 'ihtml'}, [('body', {'_label': 'ibody'}, [
+                                                          ('p', {'_label': 'ip'}, []),
+                                                          ('iframe', {}, [('html', {}, [('head', {}, []), ('body', {}, [('p', {'_label': 'iip'}, [])])])])])])]),
+                                                      ('p', {'_label': 'last'}, [])])])]
+    rows_h = [('p:lang(es)', ['p', 'last']), ('p:lang(pt)', ['q']), ('body:lang(es)', ['body']), ('p:lang(en)', []),
+              (':lang(es)', ['root', 'head', 'meta', 'meta', 'body', 'p', 'fr', 'last']), ('p:not(:lang(es), :lang(pt))', ['ip', 'iip'])]
     # the choice between lang and xml:lang is made for each ancestor by ITS namespace (an SVG ancestor of an HTML element in a
     # namespace-aware HTML tree declares its language with xml:lang)
     SVGN = 'http://www.w3.org/2000/svg'
@@ -1156,6 +1203,10 @@ HOSTILE_TREE = [('#doctype', 'html'), ('#comment', 'x'), ('html', {'_label': 'ro
     ])]), 'tail text', ('extra', {'_label': 'extra', 'lang': 'x-'}, [])]
 
 
+DETACHED_EXTRA = [':nth-child(1):dir(ltr)', ':first-child:defined', ':defined:last-child', ':only-child:dir(ltr)', 'legend:first-of-type', ':nth-of-type(1):defined',
+                  ':is(:first-child, :dir(rtl))', ':dir(rtl):nth-last-child(1)', ':defined:only-of-type', ':root:nth-child(1)', ':enabled:first-child', 'input:disabled:nth-child(1)']
+
+
 def no_raise_table(ctx, rule, deep=False):
     """Every pseudo-class and selector kind through select / filter / closest / match on a tree full of unusual but legal bs4
     content - list-valued attributes everywhere, missing attributes, empty values, invalid dates, comments / CDATA / PIs, several
@@ -1181,12 +1232,28 @@ def no_raise_table(ctx, rule, deep=False):
         dL['lone'].set('next_sibling', None)
         docs[kind + '-detached'] = (ddoc, dorder)
         didx = {id(n_): i for i, n_ in enumerate(dorder)}
-        for s in sels:
-            for fn, key, tgt in (('select', kind, None), ('closest', kind, idx[id(L['deep'])]), ('filter', kind, idx[id(L['root'])]), ('match', kind, idx[id(L['extra'])]),
-                                 ('match', kind + '-detached', didx[id(dL['lone'])]), ('select', kind + '-detached', didx[id(dL['lone'])]),
-                                 ('closest', kind + '-detached', didx[id(dL['lone'])])):
+        # more detached fragments: a legend with a control (the built-in definitions of :disabled / :enabled look at legends by
+        # position), a disabled fieldset, a lone radio button, a list item
+        frags = []
+        for fi, fspec in enumerate([('legend', {'_label': 'lone'}, [('input', {'type': 'text', '_label': 'ctl'}, [])]),
+                                    ('fieldset', {'disabled': '', '_label': 'lone'}, [('legend', {}, [('input', {'type': 'radio', 'name': 'r', '_label': 'ctl'}, [])]), ('input', {}, [])]),
+                                    ('input', {'type': 'radio', 'name': 'r', '_label': 'lone'}, []), ('li', {'_label': 'lone', 'dir': 'auto'}, ['\u05d0', ('b', {'_label': 'ctl'}, [])])]):
+            fdoc, forder, fL = make_doc([fspec], kind)
+            for k_ in ('parent', 'previous_element', 'previous_sibling', 'next_sibling'):
+                fL['lone'].set(k_, None)
+            fkey = f'{kind}-detached{fi}'
+            docs[fkey] = (fdoc, forder)
+            fidx = {id(n_): i for i, n_ in enumerate(forder)}
+            frags.append((fkey, fidx[id(fL['lone'])], fidx[id(fL.get('ctl', fL['lone']))]))
+        for s in sels + DETACHED_EXTRA:
+            plan = [('select', kind, None), ('closest', kind, idx[id(L['deep'])]), ('filter', kind, idx[id(L['root'])]), ('match', kind, idx[id(L['extra'])]),
+                    ('match', kind + '-detached', didx[id(dL['lone'])]), ('select', kind + '-detached', didx[id(dL['lone'])]),
+                    ('closest', kind + '-detached', didx[id(dL['lone'])])] if s in sels else [('match', kind + '-detached', didx[id(dL['lone'])])]
+            for fkey, lone_i, ctl_i in frags:
+                plan += [('match', fkey, lone_i), ('select', fkey, lone_i), ('closest', fkey, ctl_i)]
+            for fn, key, tgt in plan:
                 reqs.append((key, fn, s, tgt, ns))
-                meta.append((kind, fn, s, key.endswith('detached')))
+                meta.append((kind, fn, s, 'detached' in key))
     bad = None
     raised = {}
     for (kind, fn, s, det), got in zip(meta, batch_api(ctx, docs, reqs)):
